@@ -160,6 +160,22 @@ func (w *c15World) body() {
 			} else {
 				w.idle = append(w.idle, &c15Idle{cl: cl, stopsSeen: w.stops})
 			}
+		case 'w':
+			// an hour passes on the (logical) clock, then every idle connection of the running
+			// server sends a PING: it is served until Stop is called, however old it is
+			vrt.Advance(time.Hour)
+			if !w.running {
+				continue
+			}
+			for n, c := range w.idle {
+				if c.stopsSeen != w.stops || c.cl.Raw().PeerClosed() || c.cl.Raw().ClosedLocally() {
+					continue
+				}
+				r := c.cl.Do("PING")
+				if r.Status != "ok" || string(r.Reply.Data) != "PONG" {
+					w.fail("not-serving:idle-connection-ping-"+r.Status, fmt.Sprintf("%s: idle connection #%d, connected an hour ago, sent PING and got %s although Stop was not called", pos, n, r.String()))
+				}
+			}
 		case 'x', 'y':
 			// a TLS client whose handshake fails: x sends something that is no handshake,
 			// y presents a certificate the server does not trust; both then go away
@@ -425,6 +441,8 @@ func c15Run(c *fw.Ctx) {
 		"SkiT", "SikT", "SkiiT", "SkjT", "SkiR", "SikRp", "SkiPT",
 		// clients connecting at the same time, under the happens-before oracle
 		"MSPPT", "MSPQT", "MSQQi", "MSPPi", "MSiPPR",
+		// connections that idle for an hour (by the logical clock) and are used again
+		"Siw", "Sjw", "SijwT", "SjwRjw", "SjRjwT", "Sjwjw", "XSjw",
 		"Sx", "Sy", "Sxj", "Sjy", "SxyT", "SxRy", "SjxRj", "SyQT", "XSxj", "XSyT"}
 	if !phase("p1_reconfigured_bound2", reconf, 2) {
 		return
